@@ -21,6 +21,7 @@ type c19Base struct {
 	RootExts, SubExts []core.Extension
 	Target            string     // "root" | "sub"
 	Values            core.Manip // all six values; a subset mask selects which are applied
+	Profile           bool       `json:",omitempty"` // both entities reference a (validity-only) profile, so that merging runs
 }
 
 type c19Case struct {
@@ -65,16 +66,36 @@ func c19World(b c19Base, mask int) World {
 	} else {
 		sub.Manip = c19Manip(b.Values, mask)
 	}
-	return World{Ents: []core.Entity{root, sub}, Files: map[string][]byte{"root.pem": core.PemBlock("PRIVATE KEY", b.RootKey), "sub.pem": core.PemBlock("PRIVATE KEY", b.SubKey)}}
+	w := World{}
+	if b.Profile {
+		w.Profs = []core.Profile{{File: "profile.yaml", Name: "c19 profile", Validity: &core.Validity{Duration: "4y"},
+			Extensions: []core.Extension{{Kind: core.KOCSP, Optional: core.BoolP(true)}}}}
+		root.Profile, sub.Profile = "c19 profile", "c19 profile"
+	}
+	w.Ents, w.Files = []core.Entity{root, sub}, map[string][]byte{"root.pem": core.PemBlock("PRIVATE KEY", b.RootKey), "sub.pem": core.PemBlock("PRIVATE KEY", b.SubKey)}
+	return w
 }
 
 func c19Run(w *World) (map[string]*decoded, *core.Failure) {
-	d := w.Dir()
+	out, _, f := c19RunDir(w, nil)
+	return out, f
+}
+
+// c19RunDir runs on d (or a fresh directory when d is nil) and decodes both artifacts.
+func c19RunDir(w *World, d *core.Dir) (map[string]*decoded, *core.Dir, *core.Failure) {
+	if d == nil {
+		d = w.Dir()
+	}
+	out, f := c19RunOn(w, d)
+	return out, d, f
+}
+
+func c19RunOn(w *World, d *core.Dir) (map[string]*decoded, *core.Failure) {
 	res := core.Run(d, core.FlagDefault)
 	if res.Panic != "" {
 		return nil, core.Failf("C19/panic", "gopki panicked: %s\n%v", res.Panic, w.Texts())
 	}
-	if !res.OK() || res.Generated != 2 {
+	if !res.OK() {
 		return nil, core.Failf("C19/run-failed", "%s\n%v", res.String(), w.Texts())
 	}
 	out := map[string]*decoded{}
@@ -104,9 +125,34 @@ func checkC19(c c19Case) *core.Failure {
 		f.Sig = "C19/base-" + f.Sig[4:]
 		return f
 	}
-	man, f := c19Run(&wm)
+	man, dm, f := c19RunDir(&wm, nil)
 	if f != nil {
 		return f
+	}
+	defer func() {
+		// (deferred so that the field-by-field comparison above reports first)
+	}()
+	// taking the manipulations out of the configuration again gives the plain certificate back
+	if c.Mask != 0 && c.Mask%4 == 1 {
+		for i := range wb.Ents {
+			dm.Put(wb.Ents[i].File, wb.Ents[i].Render())
+		}
+		plain, f := c19RunOn(&wb, dm)
+		if f != nil {
+			f.Sig = "C19/unmanipulate-" + f.Sig[4:]
+			return f
+		}
+		for _, alias := range []string{"root", "sub"} {
+			p, b := plain[alias].Cert, base[alias].Cert
+			if p.Version != b.Version || !bytes.Equal(p.SPKIRaw, b.SPKIRaw) || !bytes.Equal(p.InnerSig.Raw, b.InnerSig.Raw) || !bytes.Equal(p.OuterSig.Raw, b.OuterSig.Raw) {
+				return core.Failf("C19/manipulation-sticks", "%s: after the manipulations were removed from the configuration and the entity regenerated, version/public key/algorithms still differ from the unmanipulated certificate (mask %06b)", alias, c.Mask)
+			}
+			if f := compareExtensions("C19", plain[alias], wb.Ent(alias).Extensions, extCtx{SubjectBits: p.SPKIBits, IssuerBits: plain["root"].Cert.SPKIBits}, alias+" (manipulations removed)"); f != nil {
+				if wb.Ent(alias).Profile == "" {
+					return f
+				}
+			}
+		}
 	}
 	m := c19Manip(c.B.Values, c.Mask)
 	if m == nil {
@@ -129,21 +175,21 @@ func checkC19(c c19Case) *core.Failure {
 			return core.Failf("C19/version-disturbed", "%s: version %d differs from the unmanipulated %d\n%s", alias, x.Version, b.Version, desc)
 		}
 		if mm.OuterSig != "" {
-			if x.OuterSig.OID != mm.OuterSig {
+			if x.OuterSig.OID != core.CanonOID(mm.OuterSig) {
 				return core.Failf("C19/outer-sigalg-not-applied", "%s: outer signatureAlgorithm %s, manipulation says %s\n%s", alias, x.OuterSig.OID, mm.OuterSig, desc)
 			}
 		} else if !bytes.Equal(x.OuterSig.Raw, b.OuterSig.Raw) {
 			return core.Failf("C19/outer-sigalg-disturbed", "%s: outer signatureAlgorithm %s differs from the unmanipulated %s\n%s", alias, hexs(x.OuterSig.Raw), hexs(b.OuterSig.Raw), desc)
 		}
 		if mm.TbsSig != "" {
-			if x.InnerSig.OID != mm.TbsSig {
+			if x.InnerSig.OID != core.CanonOID(mm.TbsSig) {
 				return core.Failf("C19/inner-sigalg-not-applied", "%s: tbs.signature %s, manipulation says %s\n%s", alias, x.InnerSig.OID, mm.TbsSig, desc)
 			}
 		} else if !bytes.Equal(x.InnerSig.Raw, b.InnerSig.Raw) {
 			return core.Failf("C19/inner-sigalg-disturbed", "%s: tbs.signature %s differs from the unmanipulated %s\n%s", alias, hexs(x.InnerSig.Raw), hexs(b.InnerSig.Raw), desc)
 		}
 		if mm.TbsPubAlg != "" {
-			if x.SPKIAlg.OID != mm.TbsPubAlg {
+			if x.SPKIAlg.OID != core.CanonOID(mm.TbsPubAlg) {
 				return core.Failf("C19/pubkey-alg-not-applied", "%s: public key algorithm %s, manipulation says %s\n%s", alias, x.SPKIAlg.OID, mm.TbsPubAlg, desc)
 			}
 		} else if !bytes.Equal(x.SPKIAlg.Raw, b.SPKIAlg.Raw) {
@@ -164,7 +210,7 @@ func checkC19(c c19Case) *core.Failure {
 		}
 		// extensions: as configured; key identifiers follow the bits actually in the certificates
 		issuerBits := man["root"].Cert.SPKIBits
-		if f := compareExtensions("C19", man[alias], wm.Ent(alias).Extensions, extCtx{SubjectBits: x.SPKIBits, IssuerBits: issuerBits}, alias); f != nil {
+		if f := compareExtensions("C19", man[alias], effectiveExts(&wm, wm.Ent(alias)), extCtx{SubjectBits: x.SPKIBits, IssuerBits: issuerBits}, alias); f != nil {
 			f.Msg += "\n" + desc
 			return f
 		}
@@ -207,6 +253,7 @@ func genC19Base(t *rapid.T) c19Base {
 	b.RootSig = rapid.SampledFrom(fittingSigAlgs(keyKind(b.RootAlg))).Draw(t, "rootsig")
 	b.SubSig = rapid.SampledFrom(fittingSigAlgs(keyKind(b.RootAlg))).Draw(t, "subsig")
 	b.Target = rapid.SampledFrom([]string{"root", "sub"}).Draw(t, "target")
+	b.Profile = rapid.Bool().Draw(t, "profile")
 	kinds := []string{core.KSKI, core.KAKI, core.KKU, core.KBC, core.KSAN, core.KCUSTOM, core.KEKU}
 	b.RootExts = append([]core.Extension{{Kind: core.KSKI, HasContent: true, SKI: "hash"}, {Kind: core.KAKI, HasContent: true, AKI: "hash"}}, genExtList(t, "rx", kinds, 3, 1200)...)
 	b.SubExts = append([]core.Extension{{Kind: core.KAKI, HasContent: true, AKI: "hash"}, {Kind: core.KSKI, HasContent: true, SKI: "hash"}}, genExtList(t, "sx", kinds, 3, 1200)...)
@@ -219,7 +266,7 @@ func genC19Base(t *rapid.T) c19Base {
 func TestC19(t *testing.T) {
 	r := core.Start(t, "C19")
 	defer r.Finish()
-	r.Rule = "base case: root and subordinate with pre-placed keys (RSA-1024/2048 preferred so that PKCS#1 v1.5 signatures are deterministic; also P-256, P-384, brainpoolP256r1), configured serials, absolute validity, SKI/AKI hash plus up to 3 further extensions each; six manipulation values drawn once (version from {0,1,2,3,4,-1,-128,127,128,255,256,65535,2^31,2^40+3}, three valid OIDs, two byte values in every raw form up to 1500 bytes). For each base ALL 64 subsets of the six keys are applied to the root or the subordinate and compared with the unmanipulated run of the same configuration. Oracle: named fields carry exactly the given value; every other field equals the unmanipulated certificate; key identifiers follow the bits actually in the certificates; unless the signature value itself is manipulated, the signature verifies over the raw manipulated TBS bytes with the real issuer key (taken from the issuer's PRIVATE KEY block) under the configured algorithm; outer-only manipulations leave the TBS bytes untouched. Non-trivial = subset of size >= 2 or a TBS-internal manipulation on the subordinate; distinct by base + subset."
+	r.Rule = "base case: root and subordinate with pre-placed keys (RSA-1024/2048 preferred so that PKCS#1 v1.5 signatures are deterministic; also P-256, P-384, brainpoolP256r1), configured serials, absolute validity, SKI/AKI hash plus up to 3 further extensions each; six manipulation values drawn once (version from {0,1,2,3,4,-1,-128,127,128,255,256,65535,2^31,2^40+3}, three valid OIDs, two byte values in every raw form up to 1500 bytes). Half of the bases reference a profile (so that profile merging runs). For each base ALL 64 subsets of the six keys are applied to the root or the subordinate and compared with the unmanipulated run of the same configuration. Oracle: named fields carry exactly the given value; every other field equals the unmanipulated certificate; key identifiers follow the bits actually in the certificates; unless the signature value itself is manipulated, the signature verifies over the raw manipulated TBS bytes with the real issuer key (taken from the issuer's PRIVATE KEY block) under the configured algorithm; outer-only manipulations leave the TBS bytes untouched; for a quarter of the subsets the manipulations are then removed from the configuration again and the regenerated certificate must equal the unmanipulated one. Non-trivial = subset of size >= 2 or a TBS-internal manipulation on the subordinate; distinct by base + subset."
 	r.Assumptions = []string{"the parameters of a manipulated AlgorithmIdentifier are not asserted", "an absent version field reads as 0"}
 	wrap := func(c c19Case) *core.Failure {
 		bits := 0
